@@ -9,7 +9,9 @@
    from the empty store (C03_history) - it says that the quad list has no repetition, that the
    graph of every stored quad is catalogued and that every stored term is known to the dictionary.
    `known_kw_a u` is the class of the open finding C03-template-keyword-a: a template carries the
-   keyword `a` in predicate position (the code stores the word `a`, SPARQL means rdf:type). *)
+   keyword `a` in predicate position - of the quad or of a quoted triple inside it (the code stores
+   the word `a`, SPARQL means rdf:type).  Terms include RDF-star quoted triples `Qt s p o`; the
+   legality filters of quoted triples (is_legal_quoted_triple) are part of model and Spec. *)
 Require Import KV.Update.Spec KV.Update.Model KV.Update.Bgp KV.Update.SetProofs KV.Update.InstProofs
   KV.Update.Proofs KV.Update.BgpProofs.
 Require Import Permutation.
@@ -91,7 +93,8 @@ Print Assumptions C03_accepts.
    are exactly identity steps, and well-formed text requests are never rejected. *)
 Theorem C03_history :
   forall (wh : Type) (eval_where : wh -> dataset -> list solution) (where_terms : wh -> list term),
-    (forall w D sol v t, In sol (eval_where w D) -> lookup v sol = Some t -> term_in_dataset t D \/ In t (where_terms w)) ->
+    (forall w D sol v t a, In sol (eval_where w D) -> lookup v sol = Some t -> In a (atoms t) ->
+       term_in_dataset a D \/ exists c, In c (where_terms w) /\ In a (atoms c)) ->
     forall (reqs : list (request wh)) (s : state),
       wf s -> forallb (fun r => negb (req_known r)) reqs = true ->
       let res := run wh eval_where where_terms reqs s in
@@ -134,14 +137,15 @@ Print Assumptions C03_set_order.
 (* ---- non-vacuity ---- *)
 (* the hypothesis of C03_history is met by the executable evaluator, and the empty store is well formed *)
 Example C03_history_hypothesis_met :
-  forall w D sol v t, In sol (eval_gwhere w D) -> lookup v sol = Some t -> term_in_dataset t D \/ In t (gwhere_terms w).
+  forall w D sol v t a, In sol (eval_gwhere w D) -> lookup v sol = Some t -> In a (atoms t) ->
+    term_in_dataset a D \/ exists c, In c (gwhere_terms w) /\ In a (atoms c).
 Proof. exact eval_gwhere_closed. Qed.
 
 Example C03_wf_empty : wf (St [] [] [] 1 []).
 Proof.
   split; [constructor|]. split.
   - intros q g [].
-  - intros t [[]|[q [[] _]]].
+  - intros t [u0 [[[]|[q [[] _]]] _]].
 Qed.
 
 (* a concrete history: INSERT DATA with a blank node; a self-referential DELETE/INSERT whose template
@@ -149,7 +153,8 @@ Qed.
 Example C03_example :
   let p := TConst (Iri 5) in
   let reqs : list (request gwhere) :=
-    [ RText [] (InsertData [TQ (TConst (Iri 1)) p (TConst (Iri 2)) GDefault; TQ (TBnode 1) p (TConst (Plain 1)) (GConst (Iri 8))]);
+    [ RText [] (InsertData [TQ (TConst (Iri 1)) p (TConst (Iri 2)) GDefault; TQ (TBnode 1) p (TConst (Plain 1)) (GConst (Iri 8));
+                            TQ (TQuoted (TConst (Plain 1)) p (TConst (Iri 2))) p (TConst (Iri 3)) GDefault]);   (* dropped: literal subject inside << >> *)
       RText [] (DeleteInsertWhere [TQ (TVar 1) p (TVar 2) GDefault] [TQ (TVar 2) p (TVar 1) GDefault; TQ (TBnode 1) p (TVar 1) GDefault]
                   [[(SDefault, [(PVar 1, PConst (Iri 5), PVar 2)])]]);
       RText [] (DeleteWhere [TQ (TBnode 1) p (TVar 2) GDefault] [[(SDefault, [(PVar 1, PConst (Iri 5), PVar 2)])]]);
@@ -159,4 +164,15 @@ Example C03_example :
   snd res = [Done 2 0; Done 2 1; Rejected 10; Rejected 10; Done 0 1] /\
   quads (fst res) = [(Iri 2, Iri 5, Iri 1, None); (Bn 2 1, Iri 5, Iri 1, None)] /\
   cat (fst res) = [Iri 8].
+Proof. vm_compute. auto. Qed.
+
+(* RDF-star: a blank node shared between a quoted triple and the object of the same template quad *)
+Example C03_example_quoted :
+  let p := TConst (Iri 5) in
+  let res := run gwhere eval_gwhere gwhere_terms
+               [RText [] (InsertData [TQ (TQuoted (TConst (Iri 1)) p (TBnode 1)) p (TBnode 1) GDefault]);
+                RText [] (DeleteWhereShort [TQ (TQuoted (TVar 1) p (TVar 2)) p (TVar 2) GDefault]
+                                           (short_where [TQ (TQuoted (TVar 1) p (TVar 2)) p (TVar 2) GDefault]))]
+               (St [] [] [] 1 []) in
+  snd res = [Done 1 0; Done 0 1] /\ quads (fst res) = [].
 Proof. vm_compute. auto. Qed.
